@@ -9,11 +9,11 @@ import CaddyModel.C12.PathLemmas
 namespace CaddyModel.C12
 
 /-- a world in which the apps accept only the empty configuration -/
-def wEnv : Env := ⟨fun _ => [], fun j => j == .null⟩
+def wEnv : Env := ⟨fun _ => [], fun j => j == .null, fun _ => none⟩
 
 def cfgSlash : Bytes := cfgPrefix     -- "/config/"
 
-def wReq (m : HMethod) (p : Bytes) (b : Body) : Req := ⟨m, p, b, [], false, true⟩
+def wReq (m : HMethod) (p : Bytes) (b : Body) : Req := ⟨m, p, b, [], false, .json⟩
 
 /-- state after `DELETE /config/` on a fresh process: the Go map `rawCfg` has no "config" key -/
 def wDeleted : State := (serve wEnv (wReq .delete cfgSlash .empty) initState).1
@@ -88,8 +88,8 @@ theorem write_effect_old_code_fails :
 
 /-! #### /id/ -/
 
-def wAll : Env := ⟨fun _ => [], fun _ => true⟩
-def wGet (p : Bytes) : Req := ⟨.get, p, .empty, [], false, true⟩
+def wAll : Env := ⟨fun _ => [], fun _ => true, fun _ => none⟩
+def wGet (p : Bytes) : Req := ⟨.get, p, .empty, [], false, .json⟩
 def wLoad (doc : Json) : State := (serve wAll (wReq .post cfgSlash (.val doc)) initState).1
 
 /-- `{"a":{"b":7},"a/b":{"@id":"s","v":1}}` -/
